@@ -264,6 +264,10 @@ func (vc *VC) atCallFor(callee string) *AtCall {
 	k := vc.callCount[callee]
 	for _, a := range vc.spec.AtCalls {
 		if a.Callee == callee && a.N == k {
+			if vc.atUsed == nil {
+				vc.atUsed = map[*AtCall]bool{}
+			}
+			vc.atUsed[a] = true
 			return a
 		}
 	}
@@ -1027,6 +1031,9 @@ func inlinable(f *ssa.Function) ([]*ssa.BasicBlock, bool) {
 // inlineCall executes the body of a callee that has no contract at the call site (loop-free callees only).
 // Its safety obligations and explicit panics are charged to the caller.
 func (vc *VC) inlineCall(x *ssa.Call, f *ssa.Function, c *ssa.CallCommon, st *State) bool {
+	if f.Pkg != nil && len(f.Blocks) == 0 {
+		vc.w.build(f.Pkg.Pkg.Path())
+	}
 	order, ok := inlinable(f)
 	if !ok || vc.inlDepth >= 4 {
 		return false
